@@ -2876,7 +2876,12 @@ void ev_callback_write(JanetFiber *fiber, JanetAsyncEvent event) {
                 len = janet_string_length(bytes);
             }
             ssize_t nwrote = 0;
-            if (start < len) {
+            int send_empty = 0;
+#ifdef JANET_NET
+            /* An empty datagram is a message like any other: it has to reach the socket */
+            send_empty = (len == 0 && state->mode == JANET_ASYNC_WRITEMODE_SENDTO);
+#endif
+            if (start < len || send_empty) {
                 int32_t nbytes = len - start;
                 void *dest_abst = state->dest_abst;
                 do {
